@@ -239,6 +239,7 @@ def cap_reg(ctx, sm):
                 ctx.ob('CAPREG', '%s/%s/%s' % (name, kind, key), ok, short_loc(regs.get(kind, {}).get('loc')),
                        '%s can serialize into %s and dispatches unions with key %s: %s' % (name, kind, key, 'registered' if ok else 'NOT registered in PerTypeLookup::new'))
     ctx.floor('CAPREG', '(function, kind, key) capabilities', n, 60)
+    priorities(ctx, regs)
     allkeys = {v['name'] for v in f.adts[KEY_ADT]['variants']} if KEY_ADT in f.adts else set()
     ctx.ob('CAPREG', 'keys-used', allkeys and set(users) == allkeys, None, 'lookup keys used by the serializer: %d of %d' % (len(users), len(allkeys)), nontrivial=False)
     # converse
@@ -250,6 +251,45 @@ def cap_reg(ctx, sm):
             else:
                 ctx.ob('CAPREG', 'converse/%s/%s' % (kind, key), cap, short_loc(ent.get('loc')),
                        '(%s, %s) is registered; a serializer function using that key %s %s' % (kind, key, 'can write' if cap else 'has NO arm for', kind))
+
+
+# reviewed registration table (DESIGN appendix D): kind -> {lookup key: priority}.  A change of this table changes
+# which union branch a value is written to (or makes the choice ambiguous): it is reported until re-reviewed.
+EXPECTED_REG = {
+    'Null': {'Null': 0, 'UnitStruct': 0, 'UnitVariant': 2},
+    'Boolean': {'Boolean': 0},
+    'Int': {'Integer': 0, 'Integer4': 0, 'Integer8': 1}, 'Date': {'Integer': 0, 'Integer4': 0, 'Integer8': 1},
+    'TimeMillis': {'Integer': 0, 'Integer4': 0, 'Integer8': 1},
+    'Long': {'Integer': 0, 'Integer4': 1, 'Integer8': 0}, 'TimeMicros': {'Integer': 0, 'Integer4': 1, 'Integer8': 0},
+    'TimestampMillis': {'Integer': 0, 'Integer4': 1, 'Integer8': 0}, 'TimestampMicros': {'Integer': 0, 'Integer4': 1, 'Integer8': 0},
+    'Float': {'Float4': 0, 'Float8': 1}, 'Double': {'Float8': 0, 'Float4': 1},
+    'Bytes': {'Str': 10, 'UnitStruct': 10, 'SliceU8': 0, 'SeqOrTupleOrTupleStruct': 2, 'UnitVariant': 10},
+    'String': {'Str': 0, 'UnitStruct': 0, 'SliceU8': 1, 'UnitVariant': 1},
+    'Array': {'SeqOrTupleOrTupleStruct': 0}, 'Map': {'StructOrMap': 0}, 'Union': {},
+    'Record': {'StructOrMap': 0},
+    'Enum': {'Integer': 10, 'Integer4': 10, 'Integer8': 10, 'UnitStruct': 0, 'Str': 5, 'UnitVariant': 0},
+    'Fixed': {'Str': 15, 'SliceU8': 0, 'SeqOrTupleOrTupleStruct': 2},
+    'Decimal': {'Integer': 5, 'Integer4': 5, 'Integer8': 5, 'Float8': 2, 'Str': 20},
+    'BigDecimal': {'Integer': 5, 'Integer4': 5, 'Integer8': 5, 'Float8': 2, 'Str': 20},
+    'Uuid': {'Str': 0},
+    'Duration': {'StructOrMap': 5, 'SeqOrTupleOrTupleStruct': 5, 'SliceU8': 5},
+}
+
+
+def priorities(ctx, regs):
+    for kind in KINDS:
+        got = regs.get(kind, {}).get('keys', {})
+        want = EXPECTED_REG.get(kind, {})
+        diff = {k: (want.get(k), got.get(k)) for k in set(want) | set(got) if want.get(k) != got.get(k)}
+        ctx.ob('CAPREG', 'priorities/%s' % kind, not diff, short_loc(regs.get(kind, {}).get('loc')),
+               'union lookup registrations of %s %s' % (kind, 'match the reviewed table' if not diff else
+                                                     'differ from the reviewed table (key: reviewed priority -> found): %s' % diff))
+    # the property the table is reviewed for: an exact-width integer (i32 / i64) never ties between int-like and long-like
+    for key, first, second in (('Integer4', 'Int', 'Long'), ('Integer8', 'Long', 'Int')):
+        a = regs.get(first, {}).get('keys', {}).get(key)
+        b_ = regs.get(second, {}).get('keys', {}).get(key)
+        ctx.ob('CAPREG', 'no-tie/%s' % key, a is not None and b_ is not None and a < b_, None,
+               '%s: %s has priority %s, %s has %s (strictly preferred: no conflict in [int, long])' % (key, first, a, second, b_))
 
 
 def borrow(ctx):
